@@ -370,6 +370,7 @@ inline void checkControl(TC& c, Inst& in, Method m, uint8_t sid, const void* ev)
 
 	// C06 / C01: isActive(i) for every id vs the machine itself, at this very moment
 	const StateID machActive = in.obj->activeStateId();
+	if (w.saveInCallbackHook && (w.nEvents & 31) == 5) w.saveInCallbackHook(in);
 	uint32_t ctlSet = 0, ctlSetT = 0;   // which states the control names as active, asked by id / by type
 	for (unsigned i = 0; i < N; ++i) {
 		bool t = false;
@@ -597,6 +598,11 @@ inline void planAppend(TPlan plan, Inst& in, uint8_t origin, uint8_t dest, bool 
 	if (ok && expectOk && now.size() == expect.size() && !now.empty() && !now.back().same(t))
 		w.V("C08", fmt("task-stored-differs-from-task-appended|form=%u|%s", form, withPayload ? "changeWith" : "change"),
 			fmt("%s: appended %s (overload form %u), the plan holds %s in its place; %s", where, t.str().c_str(), form, now.back().str().c_str(), w.tail().c_str()));
+#if HAS_PAYLOAD
+	// C07: a payload handed over with an accepted task is the payload of the plan's last task (whatever the list is otherwise)
+	if (ok && expectOk && withPayload && (now.empty() || !now.back().hasPay || ((now.back().tag ^ t.tag) & cfg::TAGMASK) != 0))
+		w.V("C07", "plan-task-payload-not-stored", fmt("%s: changeWith(%s) was accepted, the plan's last task is %s; %s", where, t.str().c_str(), now.empty() ? "(none)" : now.back().str().c_str(), w.tail().c_str()));
+#endif
 	in.plan = now;
 }
 
